@@ -7,7 +7,7 @@ ID = "C04"
 THEOREMS = [("FlatModel.Props.C04", t) for t in ("FC.issued_reads", "FC.C04.string_reads_pushed", "FC.C04.string_reads_pushed'", "FC.C04.single_unsafe",
                                                   "FC.C04.string_write_paths_are_utf8", "FC.C04.storage_is_private")]
 LEAN_TARGETS = ["FlatModel.Generated.Covered"]
-PROFILES = {"quick": ["checked"], "thorough": ["checked", "wrapping"], "search": ["checked"]}
+PROFILES = {"quick": ["checked", "wrapping"], "thorough": ["checked", "wrapping"], "search": ["checked"]}
 RULE = ("string-bearing compositions under push / clear / clone / clone_from / merge_regions / serde histories with strings of "
         "1-4 byte scalars, combining sequences, the empty string and adjacent multi-byte strings; every &str that leaves the crate "
         "(through index, ReadSlice and ReadColumns iteration) is re-validated with str::from_utf8 over its bytes in the harness and "
